@@ -39,6 +39,10 @@ pub fn tol(st: &State) -> Tol {
 
 pub fn replay_text(check: &str, st: &State, extra: &[(&str, String)]) -> String {
     let mut s = format!("check={}\n", check);
+    if cfg!(debug_assertions) {
+        // found by the build with debug assertions on: `./check replay` picks the same build
+        s.push_str("build=debug-assertions\n");
+    }
     for (k, v) in extra {
         s.push_str(&format!("{}={}\n", k, v));
     }
